@@ -74,6 +74,7 @@ pub struct Shared {
     pub in_user_write: bool,
     pub eof_reads: usize,
     // scripted queueing transport (the websocket write path): bytes accepted by poll_write while the socket is blocked
+    pub pend_again: bool,
     pub wsq: bool,
     pub blocked: bool,
     pub queue: Vec<u8>,
@@ -119,6 +120,7 @@ impl Shared {
             rcfg,
             in_user_write: false,
             eof_reads: 0,
+            pend_again: false,
             wsq: false,
             blocked: false,
             queue: Vec::new(),
@@ -169,7 +171,9 @@ impl Shared {
         let ok = match (cls, &verdict) {
             // the class of a frame is what the codec makes of it; how many bytes it removes is part of what is being checked
             // (a codec that leaves an undecodable frame in the buffer must show up as a mismatch, not as a skipped behaviour)
-            ("ka" | "tiny" | "pkt" | "ver9" | "verX", Verdict::Pkt { .. }) => true,
+            // frames of these classes are built by the encoder from typed packets: they are valid by construction, and a decoder
+            // that refuses one of them must show up as a mismatch of the replay / an unexplained event, never as a skipped frame
+            ("ka" | "tiny" | "pkt" | "ver9" | "verX", _) => true,
             ("bad", Verdict::DecodeErr { .. }) => true,
             ("short", Verdict::FrameErr) => true,
             _ => false,
@@ -351,7 +355,13 @@ impl Shared {
                 Ok(k)
             },
             "pend" if is_async && st.s == "w" => {
-                self.i += 1;
+                // not ready on two consecutive polls (time passes between them: see the replay driver), one model step
+                if !self.pend_again {
+                    self.pend_again = true;
+                } else {
+                    self.pend_again = false;
+                    self.i += 1;
+                }
                 Err(io::Error::new(io::ErrorKind::WouldBlock, "pending"))
             },
             "pongerr" => {
@@ -506,7 +516,12 @@ impl Shared {
                 "pkt" => {
                     let lens: Vec<usize> =
                         self.pool.by_len.keys().copied().filter(|l| *l <= self.rcfg.max_len).collect();
-                    lens[self.rng.gen_range(0..lens.len())]
+                    // now and then the largest frame there is (the mode's maximum, 1020 bytes compressed)
+                    if self.rcfg.frames_left % 23 == 5 {
+                        *lens.last().unwrap()
+                    } else {
+                        lens[self.rng.gen_range(0..lens.len())]
+                    }
                 },
                 _ => {
                     let maxw = self.rcfg.max_len.min(if self.mode == "U" { 252 } else { 1020 }) / 4;
@@ -1020,6 +1035,8 @@ pub fn replay_tokio_on(pool: Arc<Pool>, verify: bool, steps: Vec<Step>, seed: u6
                                 if let Some(m) = &sh.lock().unwrap().mismatch {
                                     return ReplayVerdict::Mismatch(m.clone());
                                 }
+                                // a transport may stay not ready for a long time: two minutes pass on the (paused) clock
+                                tokio::time::advance(std::time::Duration::from_secs(120)).await;
                             },
                         }
                     };
@@ -1099,7 +1116,7 @@ fn random_cfg(rng: &mut StdRng, tc: &TraceCfg) -> RandomCfg {
         p_pend: if tc.flavor == "tokio" { 0.2 } else { 0.0 },
         wseg: tc.wseg.unwrap_or(wseg),
         frames_left: tc.fixed.as_ref().map(|q| q.len()).unwrap_or(tc.frames),
-        max_len: if rng.gen_bool(0.3) { 1020 } else { 255 },
+        max_len: if rng.gen_bool(0.5) { 1020 } else { 255 },
         classes,
         close_at_end: true,
         fixed: tc.fixed.clone(),
